@@ -71,7 +71,11 @@ theorem Linked.le_head {c : List Block} {x : Block} (h : Linked (x :: c)) : ∀ 
 theorem Linked.cons {x y : Block} {rest : List Block} (h : Linked (y :: rest)) (hp : x.pre = y.hash)
     (hh : y.height < x.height) : Linked (x :: y :: rest) := ⟨hp, hh, h⟩
 
-/-- The quiescent-point clause of C05 for disk `d` with canonical chain `c` (head first). -/
+/-- no transaction occurs in two blocks of the chain (a block never repeats a transaction of an ancestor) -/
+def TxDisj (c : List Block) : Prop := c.Pairwise (fun x y => ∀ t ∈ x.txs, t ∉ y.txs)
+
+/-- The quiescent-point clause of C05 for disk `d` with canonical chain `c` (head first), including the
+    pool clause: the executed store marks exactly the transactions of the chain's blocks. -/
 structure ChainInv (d : Disk) (c : List Block) : Prop where
   linked : Linked c
   cur : d.current = c.head?
@@ -84,6 +88,9 @@ structure ChainInv (d : Disk) (c : List Block) : Prop where
   roots : ∀ x ∈ c, d.roots x.hash = true
   noAdd : d.addMark = none
   noRemove : d.removeMark = none
+  exec_mem : ∀ x ∈ c, ∀ t ∈ x.txs, d.executed t = some x.hash
+  exec_only : ∀ t h, d.executed t = some h → ∃ x ∈ c, x.hash = h ∧ t ∈ x.txs
+  txdisj : TxDisj c
 
 /-- Chain `c` plus any part of one child `x` of its head, under an intent mark for `x`. -/
 structure Pending (d : Disk) (c : List Block) (x : Block) : Prop where
@@ -101,6 +108,10 @@ structure Pending (d : Disk) (c : List Block) (x : Block) : Prop where
   addMark : d.addMark = none ∨ d.addMark = some x
   removeMark : d.removeMark = none ∨ d.removeMark = some x
   marked : d.addMark = some x ∨ d.removeMark = some x
+  exec_mem : ∀ y ∈ c, ∀ t ∈ y.txs, d.executed t = some y.hash
+  exec_only : ∀ t h, d.executed t = some h → (∃ y ∈ c, y.hash = h ∧ t ∈ y.txs) ∨ (h = x.hash ∧ t ∈ x.txs)
+  txfresh : ∀ y ∈ c, ∀ t ∈ x.txs, t ∉ y.txs
+  txdisj : TxDisj c
 
 /-- What start-up repair can handle. -/
 def Rec (d : Disk) : Prop := (∃ c, ChainInv d c) ∨ (∃ c x, Pending d c x)
@@ -143,8 +154,8 @@ inductive About (c : List Block) (x : Block) : Write → Prop where
   | putCurrentX : About c x (.putCurrent x)
   | putCurrentHead (y : Block) (h : c.head? = some y) : About c x (.putCurrent y)
   | commitState : About c x (.commitState x.hash)
-  | putExecuted (txs : List Nat) (bh : Nat) : About c x (.putExecuted txs bh)
-  | delExecuted (t : Nat) : About c x (.delExecuted t)
+  | putExecuted : About c x (.putExecuted x.txs x.hash)
+  | delExecuted (t : Nat) (ht : t ∈ x.txs) : About c x (.delExecuted t)
 
 theorem Pending.write {d : Disk} {c : List Block} {x : Block} (p : Pending d c x) {w : Write}
     (hw : About c x w) : Pending (d.apply w) c x := by
@@ -213,14 +224,36 @@ theorem Pending.write {d : Disk} {c : List Block} {x : Block} (p : Pending d c x
     intro y hy
     show updB d.roots x.hash true y.hash = true
     rw [updB_other _ _ (p.fresh y hy)]; exact p.roots y hy
-  | putExecuted txs bh => exact { p with }
-  | delExecuted t => exact { p with }
+  | putExecuted =>
+    refine { p with exec_mem := ?_, exec_only := ?_ }
+    · intro y hy t ht
+      show markExec d.executed x.txs x.hash t = some y.hash
+      have : t ∉ x.txs := fun h => p.txfresh y hy t h ht
+      simp [markExec, this]; exact p.exec_mem y hy t ht
+    · intro t h hh
+      have hh' : markExec d.executed x.txs x.hash t = some h := hh
+      unfold markExec at hh'
+      split at hh'
+      · rename_i ht
+        simp at hh'; exact Or.inr ⟨hh'.symm, ht⟩
+      · exact p.exec_only t h hh'
+  | delExecuted t0 ht0 =>
+    refine { p with exec_mem := ?_, exec_only := ?_ }
+    · intro y hy t ht
+      show upd d.executed t0 none t = some y.hash
+      have : t ≠ t0 := fun e => p.txfresh y hy t0 ht0 (e ▸ ht)
+      rw [upd_other _ _ this]; exact p.exec_mem y hy t ht
+    · intro t h hh
+      rcases upd_eq_some hh with ⟨_, hv⟩ | ⟨_, hm⟩
+      · cases hv
+      · exact p.exec_only t h hm
 
 /-! ### entering and leaving `Pending` -/
 
 /-- `Put(addBlockMark)` for a child `b` of the head that is not yet indexed. -/
 theorem ChainInv.begin_add {d : Disk} {c : List Block} {y b : Block} (ci : ChainInv d c)
-    (hy : c.head? = some y) (hp : b.pre = y.hash) (hh : y.height < b.height) (hn : d.blocks b.hash = none) :
+    (hy : c.head? = some y) (hp : b.pre = y.hash) (hh : y.height < b.height) (hn : d.blocks b.hash = none)
+    (hfresh : ∀ z ∈ c, ∀ t ∈ b.txs, t ∉ z.txs) :
     Pending (d.apply (.putAddMark b)) c b where
   linked := ci.linked
   child := ⟨y, hy, hp, hh⟩
@@ -239,6 +272,10 @@ theorem ChainInv.begin_add {d : Disk} {c : List Block} {y b : Block} (ci : Chain
   addMark := Or.inr rfl
   removeMark := Or.inl ci.noRemove
   marked := Or.inl rfl
+  exec_mem := ci.exec_mem
+  exec_only := fun t h hh => Or.inl (ci.exec_only t h hh)
+  txfresh := hfresh
+  txdisj := ci.txdisj
 
 /-- `Put(removeBlockMark)` for the head `x` of a chain of at least two blocks. -/
 theorem ChainInv.begin_remove {d : Disk} {c : List Block} {x : Block} (ci : ChainInv d (x :: c)) (hc : c ≠ []) :
@@ -287,12 +324,25 @@ theorem ChainInv.begin_remove {d : Disk} {c : List Block} {x : Block} (ci : Chai
     roots := fun z hz => ci.roots z (List.mem_cons_of_mem _ hz)
     addMark := Or.inl ci.noAdd
     removeMark := Or.inr rfl
-    marked := Or.inr rfl }
+    marked := Or.inr rfl
+    exec_mem := fun z hz => ci.exec_mem z (List.mem_cons_of_mem _ hz)
+    exec_only := by
+      intro t h hh
+      obtain ⟨z, hz, he, ht⟩ := ci.exec_only t h hh
+      rcases List.mem_cons.mp hz with h1 | h1
+      · subst h1; exact Or.inr ⟨he.symm, ht⟩
+      · exact Or.inl ⟨z, h1, he, ht⟩
+    txfresh := by
+      intro z hz t ht
+      have := (List.pairwise_cons.mp ci.txdisj).1 z hz
+      exact this t ht
+    txdisj := (List.pairwise_cons.mp ci.txdisj).2 }
 
 /-- the pending block is gone entirely and the head is recorded: erasing the marks gives the clean chain -/
 theorem Pending.finish_removed {d : Disk} {c : List Block} {x : Block} (p : Pending d c x)
     (hb : d.blocks x.hash = none) (hh : d.heights x.height = none) (hv : d.verify x.height = false)
-    (hc : d.current = c.head?) : ChainInv { d with addMark := none, removeMark := none } c where
+    (hc : d.current = c.head?) (hx : ∀ t ∈ x.txs, d.executed t = none) :
+    ChainInv { d with addMark := none, removeMark := none } c where
   linked := p.linked
   cur := hc
   blocks_mem := p.blocks_mem
@@ -320,11 +370,20 @@ theorem Pending.finish_removed {d : Disk} {c : List Block} {x : Block} (p : Pend
   roots := p.roots
   noAdd := rfl
   noRemove := rfl
+  exec_mem := p.exec_mem
+  exec_only := by
+    intro t h hh
+    rcases p.exec_only t h hh with h1 | ⟨_, ht⟩
+    · exact h1
+    · have := hx t ht
+      have hh' : d.executed t = some h := hh
+      rw [this] at hh'; cases hh'
+  txdisj := p.txdisj
 
 /-- every entry of the pending block is in place and it is the recorded head: erasing the mark gives the longer chain -/
 theorem Pending.finish_added {d : Disk} {c : List Block} {x : Block} (p : Pending d c x)
     (hb : d.blocks x.hash = some x) (hh : d.heights x.height = some x) (hv : d.verify x.height = true)
-    (hs : d.roots x.hash = true) (hc : d.current = some x) :
+    (hs : d.roots x.hash = true) (hc : d.current = some x) (hx : ∀ t ∈ x.txs, d.executed t = some x.hash) :
     ChainInv { d with addMark := none, removeMark := none } (x :: c) := by
   obtain ⟨y, hy, hp, hlt⟩ := p.child
   obtain ⟨rest, rfl⟩ : ∃ rest, c = y :: rest := by
@@ -374,6 +433,17 @@ theorem Pending.finish_added {d : Disk} {c : List Block} {x : Block} (p : Pendin
       · subst h1; exact hs
       · exact p.roots z h1
     noAdd := rfl
-    noRemove := rfl }
+    noRemove := rfl
+    exec_mem := by
+      intro z hz t ht
+      rcases List.mem_cons.mp hz with h1 | h1
+      · subst h1; exact hx t ht
+      · exact p.exec_mem z h1 t ht
+    exec_only := by
+      intro t h hh
+      rcases p.exec_only t h hh with ⟨z, hz, he, ht⟩ | ⟨he, ht⟩
+      · exact ⟨z, List.mem_cons_of_mem _ hz, he, ht⟩
+      · exact ⟨x, List.mem_cons_self .., he.symm, ht⟩
+    txdisj := List.pairwise_cons.mpr ⟨fun z hz t ht => p.txfresh z hz t ht, p.txdisj⟩ }
 
 end Rangers.Proofs.ChainStore
